@@ -101,6 +101,79 @@ def skeleton(body: str, patterns):
     return toks
 
 
+def all_fns(src):
+    """name -> body text of every `fn name(...) {...}` in the file"""
+    out = {}
+    for m in re.finditer(r"\bfn\s+(\w+)\b[^{;]*\{", src):
+        name = m.group(1)
+        i = m.end(); depth = 1
+        while depth and i < len(src):
+            if src[i] == '"':
+                j = i + 1
+                while src[j] != '"':
+                    j += 2 if src[j] == "\\" else 1
+                i = j + 1; continue
+            if src[i] == "{": depth += 1
+            if src[i] == "}": depth -= 1
+            i += 1
+        out.setdefault(name, src[m.end():i - 1])
+    return out
+
+
+def inline_helpers(body, fns, keep, depth=0):
+    """Replace every call of a helper function defined in the same file (`name(…)`, `self.name(…)`, `Type::name(…)`) by the helper's
+    body in braces, recursively: extracting a few statements into a private function, or inlining one, does not change the
+    actions the code performs nor their order.  `keep`: names that are analysed on their own or that are actions themselves."""
+    if depth > 3:
+        return body
+    out, i = [], 0
+    rx = re.compile(r"\b(\w+)\s*\(")
+    while True:
+        m = rx.search(body, i)
+        if not m:
+            out.append(body[i:]); break
+        name = m.group(1)
+        pre = body[max(0, m.start() - 3):m.start()]
+        if name in fns and name not in keep and not re.search(r"fn\s+$", body[max(0, m.start() - 8):m.start()]) and not pre.endswith("!"):
+            # skip the argument list
+            j = m.end(); d = 1
+            while d and j < len(body):
+                if body[j] == '"':
+                    k = j + 1
+                    while body[k] != '"':
+                        k += 2 if body[k] == "\\" else 1
+                    j = k + 1; continue
+                if body[j] in "([{": d += 1
+                if body[j] in ")]}": d -= 1
+                j += 1
+            args = body[m.end():j - 1]
+            out.append(body[i:m.start()])
+            out.append(" { " + args + " ; " + inline_helpers(fns[name], fns, keep | {name}, depth + 1) + " } ")
+            i = j
+        else:
+            out.append(body[i:m.end()]); i = m.end()
+    return "".join(out)
+
+
+def resolve_consts(src):
+    """`const NAME: T = RHS;` with an RHS made of EPOLL* flags: substitute NAME by (RHS) at its uses (a named event mask is the mask)"""
+    for m in list(re.finditer(r"\bconst\s+(\w+)\s*:\s*[\w:]+\s*=\s*([^;]*EPOLL[^;]*);", src)):
+        name, rhs = m.group(1), m.group(2).strip()
+        head, tail = src[:m.end()], src[m.end():]
+        src = head + re.sub(r"\b" + name + r"\b", "(" + rhs + ")", tail)
+    return src
+
+
+STRUCTURE = {"{", "}", "return", "continue"}
+
+
+def flat(toks):
+    """canonical form of an epoll skeleton: the actions in program order.  Braces and `return` / `continue` are not part of it, so
+    `if let … { …; return }` / `match`, early `continue` / nested `if`, a block moved into a helper function or back, a narrower
+    `unsafe` block … give the same list; a missing, added, re-ordered or weakened action does not."""
+    return [t for t in toks if t not in STRUCTURE]
+
+
 def pool_canon(toks):
     """Canonical form of a pool skeleton: what matters is WHICH actions happen while the receiver lock is held and in which order
     the actions follow each other — not whether the branch on the received message is a `match`, an `if let` or a `let … else`.
@@ -143,29 +216,29 @@ POOL_PATTERNS = [
 
 EPOLL_PATTERNS = [
     (r"handle_one_request\(", "handle_one_request"),
-    (r"handle\.in_flight\s*\.store\(\s*(\w+)\s*,\s*Ordering::(\w+)\s*\)", lambda m: f"store in_flight {m.group(1)} {m.group(2)}"),
-    (r"handle\.closed\s*\.store\(\s*(\w+)\s*,\s*Ordering::(\w+)\s*\)", lambda m: f"store closed {m.group(1)} {m.group(2)}"),
-    (r"handle\s*\.closed\s*\.load\(\s*Ordering::(\w+)\s*\)", lambda m: f"load closed {m.group(1)}"),
+    (r"\.in_flight\s*\.store\(\s*(\w+)\s*,\s*Ordering::(\w+)\s*\)", lambda m: f"store in_flight {m.group(1)} {m.group(2)}"),
+    (r"\.closed\s*\.store\(\s*(\w+)\s*,\s*Ordering::(\w+)\s*\)", lambda m: f"store closed {m.group(1)} {m.group(2)}"),
+    (r"\.closed\s*\.load\(\s*Ordering::(\w+)\s*\)", lambda m: f"load closed {m.group(1)}"),
     (r"\.in_flight\s*\.compare_exchange\(\s*(\w+)\s*,\s*(\w+)\s*,\s*Ordering::(\w+)\s*,\s*Ordering::(\w+)\s*\)", lambda m: f"cas in_flight {m.group(1)} {m.group(2)} {m.group(3)} {m.group(4)}"),
-    (r"events:\s*\(([A-Z_| ]+)\)\s*as u32", lambda m: "events " + m.group(1).replace(" ", "")),
+    (r"events:\s*\(*\s*([A-Z_| ]+?)\s*\)\s*as u32", lambda m: "events " + m.group(1).replace(" ", "")),
     (r"epoll_ctl\([^;]*?EPOLL_CTL_DEL", "epoll_ctl DEL"),
     (r"epoll_ctl\([^;]*?EPOLL_CTL_ADD", "epoll_ctl ADD"),
     (r"epoll_wait\(", "epoll_wait"),
-    (r"Box::from_raw\(\s*handle\.stream_ptr\s*\)", "take stream"),
+    (r"Box::from_raw\(\s*(?:\w+\s*\.\s*)*stream_ptr\s*\)", "take stream"),
     (r"Box::from_raw\(\s*stream_ptr\s*\)", "take stream"),
-    (r"Box::from_raw\(\s*handle_ptr as \*mut Handle\s*\)", "free handle"),
+    (r"Box::from_raw\(\s*[\w.]+ as \*mut Handle\s*\)", "free handle"),
     (r"Box::from_raw\(\s*ptr as \*mut Handle\s*\)", "free handle"),
-    (r"Box::into_raw\(\s*Box::new\(stream\)\s*\)", "box stream"),
-    (r"Box::into_raw\(\s*handle\s*\)", "box handle"),
+    (r"Box::into_raw\(\s*Box::new\(\s*\w+\s*\)\s*\)", "box stream"),
+    (r"Box::into_raw\(\s*\w+\s*\)", "box handle"),
     (r"connection_teardown_hook", "teardown"),
     (r"connection_setup_hook", "setup"),
-    (r"drop\(stream\)", "drop stream"),
+    (r"drop\(\s*\w*stream\w*\s*\)", "drop stream"),
     (r"\.dead\s*\.lock\(\)\s*\.unwrap\(\)\s*\.push\(", "reaper push"),
-    (r"reaper\.wake\(\)", "reaper wake"),
-    (r"reaper\.free_dead\(\)", "free_dead"),
-    (r"reaper\.drain_wake\(\)", "drain_wake"),
-    (r"worker_pool\.execute\(", "execute"),
-    (r"listener\.accept\(\)", "accept"),
+    (r"\.wake\(\)", "reaper wake"),
+    (r"\.free_dead\(\)", "free_dead"),
+    (r"\.drain_wake\(\)", "drain_wake"),
+    (r"\.execute\(", "execute"),
+    (r"\.accept\(\)", "accept"),
     (r"\breturn\b", "return"),
     (r"\bcontinue\b", "continue"),
     (r"std::mem::take\(", "take dead list"),
@@ -337,12 +410,17 @@ def main():
     m = re.search(r"impl Task for EpollJob\s*\{", ep)
     if not m:
         raise ExtractError("impl Task for EpollJob")
-    L.append(lean_list("epollJobRun", skeleton(fn_body(ep[m.end():], "run"), EPOLL_PATTERNS)))
-    L.append(lean_list("epollServe", skeleton(fn_body(ep, "serve_epoll"), EPOLL_PATTERNS)))
-    L.append(lean_list("epollFreeDead", skeleton(fn_body(ep, "free_dead"), EPOLL_PATTERNS)))
+    # helper functions of the same file are inlined at their call sites and named event masks are resolved before the actions are
+    # read off; the lists are in canonical (flat) form
+    ep = resolve_consts(ep)
+    fns = all_fns(ep)
+    keep = {"run", "serve_epoll", "free_dead", "drain_wake", "wake", "create_listener", "create_wake_fd", "new", "drop", "execute"}
+    job = flat(skeleton(inline_helpers(fn_body(ep[m.end():], "run"), fns, keep), EPOLL_PATTERNS))
+    serve = flat(skeleton(inline_helpers(fn_body(ep, "serve_epoll"), fns, keep), EPOLL_PATTERNS))
+    L.append(lean_list("epollJobRun", job))
+    L.append(lean_list("epollServe", serve))
+    L.append(lean_list("epollFreeDead", flat(skeleton(inline_helpers(fn_body(ep, "free_dead"), fns, keep), EPOLL_PATTERNS))))
     # the same actions, labelled by code site, in the order in which the model lists its annotated steps
-    job = skeleton(fn_body(ep[m.end():], "run"), EPOLL_PATTERNS)
-    serve = skeleton(fn_body(ep, "serve_epoll"), EPOLL_PATTERNS)
     L.append(lean_list("epollActions", site_actions(job, serve)))
     sv = strip_hooks(strip_comments(open(os.path.join(REPO, "src/server/mod.rs")).read()))
     L.append(lean_list("serverHandleOne", skeleton(fn_body(sv, "handle_one_request"), SERVER_PATTERNS)))
